@@ -106,6 +106,9 @@ fn build_doc(r: &mut Rng, n_pages: usize) -> (Document, ObjectId, Vec<ObjectId>,
         if r.chance(1, 3) && remaining >= 2 {
             let k = 1 + r.usize(remaining.min(5));
             let mid = fresh(r);
+            // every third group hangs below a CHAIN of 1-4 intermediate nodes with a single kid each (legal; more inner nodes than pages)
+            let chain_ids: Vec<ObjectId> = if r.chance(1, 3) { (0..1 + r.usize(4)).map(|_| fresh(r)).collect() } else { vec![] };
+            let mid_parent = *chain_ids.last().unwrap_or(&root);
             let mut kids = vec![];
             for _ in 0..k {
                 let p = fresh(r);
@@ -114,10 +117,16 @@ fn build_doc(r: &mut Rng, n_pages: usize) -> (Document, ObjectId, Vec<ObjectId>,
                 doc.objects.insert(p, Object::Dictionary(d)); pages.push(p); kids.push(Object::Reference(p));
             }
             let mut d = Dictionary::new();
-            d.set("Type", Object::Name(b"Pages".to_vec())); d.set("Parent", Object::Reference(root));
+            d.set("Type", Object::Name(b"Pages".to_vec())); d.set("Parent", Object::Reference(mid_parent));
             d.set("Count", Object::Integer(k as i64)); d.set("Kids", Object::Array(kids));
             doc.objects.insert(mid, Object::Dictionary(d));
-            root_kids.push(Object::Reference(mid));
+            for (ci, cid) in chain_ids.iter().enumerate() {
+                let mut cd = Dictionary::new();
+                cd.set("Type", Object::Name(b"Pages".to_vec())); cd.set("Parent", Object::Reference(if ci == 0 { root } else { chain_ids[ci - 1] }));
+                cd.set("Count", Object::Integer(k as i64)); cd.set("Kids", Object::Array(vec![Object::Reference(if ci + 1 < chain_ids.len() { chain_ids[ci + 1] } else { mid })]));
+                doc.objects.insert(*cid, Object::Dictionary(cd));
+            }
+            root_kids.push(Object::Reference(*chain_ids.first().unwrap_or(&mid)));
             remaining -= k;
         } else {
             let p = fresh(r);
